@@ -269,7 +269,7 @@ class Interp:
             obj = self.eval(t.value, ctx, env)
             cur = self.getattr(obj, t.attr, ctx, env, t)
             rhs = self.eval(st.value, ctx, env)
-            self.setattr(obj, t.attr, self.binop(st.op, cur, rhs, ctx, st, inplace=True), ctx, t)
+            self.setattr(obj, self.mangle(t.attr, env), self.binop(st.op, cur, rhs, ctx, st, inplace=True), ctx, t)
         elif isinstance(t, ast.Subscript):
             obj = self.eval(t.value, ctx, env)
             idx = self.eval(t.slice, ctx, env)
@@ -302,7 +302,7 @@ class Interp:
                 self.assign(tt, vv, ctx, env)
         elif isinstance(t, ast.Attribute):
             obj = self.eval(t.value, ctx, env)
-            self.setattr(obj, t.attr, v, ctx, t)
+            self.setattr(obj, self.mangle(t.attr, env), v, ctx, t)
         elif isinstance(t, ast.Subscript):
             obj = self.eval(t.value, ctx, env)
             idx = self.eval(t.slice, ctx, env)
@@ -916,6 +916,8 @@ class Interp:
         if isinstance(a, (SymEnum, enum.Enum)) and isinstance(b, (SymEnum, enum.Enum)):
             return self.eq(a, b, ctx)
         if is_sym(a) or is_sym(b):
+            if a is NotImplemented or b is NotImplemented or a is Ellipsis or b is Ellipsis:
+                return False
             raise PyvcUnsupported('identity of symbolic scalars')
         return a is b
 
@@ -1063,6 +1065,17 @@ class Interp:
         kind, f = self.src.class_attr(aobj.cls, name)
         if kind == 'func':
             return self.truth(self.call_func(ctx, f, [a, b], {}), ctx)
+        if kind == 'native_func':
+            f2 = self.src.of_native(f)
+            if f2 is not None:            # e.g. functools.total_ordering derivations, read from the stdlib source
+                return self.truth(self.call_func(ctx, f2, [a, b], {}), ctx)
+            if dataclasses.is_dataclass(aobj.cls) and aobj.cls.__dataclass_params__.order:
+                # dataclass(order=True): compares the tuples of the compare-fields (same class only)
+                bobj = b if isinstance(b, SymObj) else models.content(self, ctx, b)[0]
+                if bobj.cls is aobj.cls:
+                    fa = tuple(aobj.fields[x.name] for x in dataclasses.fields(aobj.cls) if x.compare)
+                    fb = tuple(bobj.fields[x.name] for x in dataclasses.fields(aobj.cls) if x.compare)
+                    return self.tuple_order(op, fa, fb, ctx, node)
         hook = getattr(self, 'abstract_order', None)
         if hook is not None:
             return hook(op, a, b, ctx, node)
